@@ -478,6 +478,9 @@ class ShortTimeFourierTransformFrameComputer(LinearFilterBankFrameComputer):
             frame_length = self._frame_length
         frame_shift = self._frame_shift
         num_frames = max(0, (total_len - frame_length) // frame_shift + 1)
+        if self._first_frame and total_len < self._frame_length // 2 + 1:
+            # compute_full yields no frames for a signal this short. Wait for more
+            num_frames = 0
         coeffs = np.empty((num_frames, self.num_coeffs), dtype=self._chunk_dtype)
         for frame_idx in range(num_frames):
             frame_start_idx = frame_idx * frame_shift
@@ -518,23 +521,14 @@ class ShortTimeFourierTransformFrameComputer(LinearFilterBankFrameComputer):
             self._compute_frame(frame, coeffs[frame_idx])
             self._first_frame = False
         rem_len = total_len - num_frames * frame_shift
-        assert rem_len < frame_length
-        if rem_len > 0:
-            throw_away = total_len - rem_len
-            if throw_away < buf_len:
-                rem_ring_len = buf_len - throw_away
-                assert rem_ring_len < rem_len or (
-                    rem_ring_len <= rem_len and not len(chunk)
-                )
-                self._buf[
-                    self._frame_length
-                    - rem_len : self._frame_length
-                    - rem_len
-                    + rem_ring_len
-                ] = self._buf[self._frame_length - rem_ring_len :]
-                self._buf[self._frame_length - (rem_len - rem_ring_len) :] = chunk
-            else:
-                self._buf[-rem_len:] = chunk[-rem_len:]
+        assert rem_len < self._frame_length
+        # once a frame has been emitted, the buffer holds the last frame_length
+        # samples seen (the final rem_len of which are yet to be consumed) so that
+        # finalize can reflect over the same samples compute_full would
+        valid_len = buf_len if self._first_frame else self._frame_length
+        keep = np.concatenate([self._buf[self._frame_length - valid_len :], chunk])
+        keep = keep[max(0, len(keep) - self._frame_length) :]
+        self._buf[self._frame_length - len(keep) :] = keep
         self._buf_len = rem_len
         self._started = True
         return coeffs
@@ -554,11 +548,24 @@ class ShortTimeFourierTransformFrameComputer(LinearFilterBankFrameComputer):
             num_frames -= pad_left
             pad_left = 0
         num_frames //= frame_shift
+        if self._first_frame and buf_len < frame_length // 2 + 1:
+            # same rule as compute_full: too short to produce anything
+            num_frames = 0
         if num_frames >= 1:
             pad_right = (num_frames - 1) * frame_shift + frame_length - buf_len
             pad_right -= pad_left
             coeffs = np.empty((num_frames, self.num_coeffs), dtype=self._chunk_dtype)
-            frames = np.pad(self._buf[-buf_len:], (pad_left, pad_right), "symmetric",)
+            if self._first_frame:
+                frames = np.pad(
+                    self._buf[frame_length - buf_len :],
+                    (pad_left, pad_right),
+                    "symmetric",
+                )
+            else:
+                # the buffer is full: reflect over all of it, but start framing at
+                # the first unconsumed sample
+                frames = np.pad(self._buf, (0, pad_right), "symmetric")
+                frames = frames[frame_length - buf_len :]
             for frame_idx in range(num_frames):
                 frame = frames[
                     frame_idx * frame_shift : frame_idx * frame_shift + frame_length
